@@ -240,7 +240,7 @@ func init() {
 		NonTrivial: func(w *sim.World) bool { return w.Mon.Evals["C06"] > 0 },
 	})
 	registerSim(&simSpec{
-		ID: "C07", Level: "exploration", Quick: 400, Thorough: 30000,
+		ID: "C07", Level: "exploration", Quick: 1500, Thorough: 40000,
 		Rule: "seeded cases: owned and independent Jobs, startAfter unset / past / = creation / +seconds..minutes, some postponed by the user while queued, several Jobs sharing a deadline, no periodic resync (the deferred re-sync must be the controller's own); " +
 			"non-trivial = a Job whose startAfter lies after its creation; distinct = distinct abstract trace",
 		Assume:   []string{"liveness is restated as bounded progress: at the fixpoint (no enabled step, no timer before the horizon, resync period longer than the horizon) no due Job is queued"},
